@@ -192,6 +192,67 @@ def run_history(ops, recursive=True, inject=None, small=False, batched=False):
     return problems, known
 
 
+def present_at_start(order):
+    """'present at start': a tree with symbolic links to directories next to real directories (listing order fixed by a sorted
+    or reverse-sorted scandir, so 'a link listed right before a directory' is exercised either way); every real directory is
+    probed under a recursive watch that does not follow links"""
+    SMALL[0] = False
+    base = tempfile.mkdtemp(prefix="c02s")
+    root, ext = os.path.join(base, "root"), os.path.join(base, "ext")
+    os.makedirs(os.path.join(ext, "x"))
+    for d in ("b_dir/d_dir/e_dir", "m_dir", "z_dir/y_dir"):
+        os.makedirs(os.path.join(root, d))
+    for l in ("a_link", "b_dir/c_link", "b_dir/d_dir/a_link", "n_link", "z_dir/z_link"):
+        os.symlink(ext, os.path.join(root, l))
+    real_scandir = os.scandir
+
+    class _Sorted:
+        def __init__(self, path):
+            self._it = real_scandir(path)
+            self._ents = sorted(self._it, key=lambda e: e.name, reverse=(order == "reverse"))
+
+            self._i = 0
+
+        def __iter__(self):
+            return self
+
+        def __next__(self):
+            if self._i >= len(self._ents):
+                raise StopIteration
+            self._i += 1
+            return self._ents[self._i - 1]
+
+        def __enter__(self):
+            return self
+
+        def __exit__(self, *a):
+            self._it.close()
+
+        def close(self):
+            self._it.close()
+    problems = []
+    os.scandir = lambda path=".": _Sorted(path)
+    try:
+        ino = Inotify(root.encode(), recursive=True)
+    finally:
+        os.scandir = real_scandir
+    try:
+        for d in dirs_under(root):
+            if os.path.islink(d):
+                continue
+            probe = os.path.join(d, "probe")
+            open(probe, "w").close()
+            evs = drain(ino)
+            if not [e for e in evs if e.is_create and e.src_path == probe.encode()]:
+                problems.append(f"tree present at start (links to directories next to directories, listing order {order}): a file created in {os.path.relpath(d, base)} was not reported")
+            os.unlink(probe)
+            drain(ino)
+    finally:
+        ino.close()
+        shutil.rmtree(base, ignore_errors=True)
+    return problems
+
+
 def histories(L):
     ops = [("mkdir", n) for n in NAMES] + [("mkdir2", "a", "b"), ("mkdir2", "b", "a"), ("rmdir", "a"), ("rename", "a", "b"), ("rename", "b", "a"), ("rename", "pre", "a"), ("moveout", "a"), ("moveout", "b"),
                                             ("movein", "a"), ("rm-moved-out", "a"), ("touch", "a"), ("rename", "a", "a2"), ("mkdir2", "a2", "b"), ("mkdirp", "a", "b"), ("rmdir2", "a", "b")]
@@ -221,6 +282,9 @@ NAMED = {
 
 
 def main():
+    if REPLAY is not None and REPLAY.get("kind") == "present-at-start":
+        pr = present_at_start(REPLAY["order"])
+        replay_result(bool(pr), pr[:2])
     if REPLAY is not None:
         c = REPLAY
         pr, kn = run_history([tuple(o) for o in c["ops"]], c.get("recursive", True), tuple(c["inject"]) if c.get("inject") else None, c.get("small", False), c.get("batched", False))
@@ -258,6 +322,11 @@ def main():
             pr, kn = run_history(list(ops), True, None, small, True)
             if pr:
                 bat.fail(f"{WHICH}.history(back to back{', one record per read' if small else ''})", pr[0], {"ops": [list(o) for o in ops], "recursive": True, "batched": True, "small": small, "problems": pr[:2]}, "Inotify.read_events")
+    for order in ("sorted", "reverse"):
+        bat.case(("present-at-start", order))
+        pr = present_at_start(order)
+        if pr:
+            bat.fail(f"{WHICH}.present-at-start", pr[0], {"kind": "present-at-start", "order": order, "problems": pr[:2]}, "Inotify._add_dir_watch")
     burst = [("mkdir", "a"), ("mkdir2", "a", "b"), ("mkdir", "b"), ("mkdir2", "b", "a"), ("touch", "a"), ("burst", "c")]
     for pos in (1, 2, 3, 4, 5, 6):
         for err in (errno.ENOSPC, errno.ENOENT):
